@@ -217,7 +217,7 @@ fn mon_c01_cfg(snap: &Snap, cfg: Option<&Config>, armed: &mut BTreeMap<String, u
             }
             _ => any_worker_alive,
         };
-        if info.eof && info.calls == 0 && !snap.stop_requested() && any_worker_alive && alive_when_given_up && snap.server_done.is_none() && !lost_with_its_worker {
+        if info.eof && !info.reset && info.calls == 0 && !snap.stop_requested() && any_worker_alive && alive_when_given_up && snap.server_done.is_none() && !lost_with_its_worker {
             out.push((
                 "C01:discarded-while-running".to_string(),
                 format!("connection {c} (listener {}) was closed by the server without ever reaching a service call, while the server is running and a worker is alive (phase {:?})", info.listener, info.phase),
@@ -248,7 +248,7 @@ fn mon_c01_cfg(snap: &Snap, cfg: Option<&Config>, armed: &mut BTreeMap<String, u
                 if let Some(w) = snap.live_worker(idx) {
                     let running = w.view.as_ref().map_or(false, |v| v.state != "shutdown");
                     let all_ready = (0..n_svc).all(|v| snap.mode(w.slot, v) == Mode::Ready);
-                    if running && all_ready && !info.eof {
+                    if running && all_ready && (!info.eof || info.reset) {
                         *armed.entry("quiescent_states_checked_for_stuck_queued_connections".into()).or_insert(0) += 1;
                         out.push((
                             "C01:queued-connection-never-served".to_string(),
@@ -1072,6 +1072,8 @@ fn specs_for(prop: &'static str, tier: Tier) -> Vec<SpecImpl> {
                 v.push(mk(cfg(2, &[Uds], 1), Bounds { connects: 2, kills: 2, completes: false, ..Default::default() }));
                 // a service future panics
                 v.push(mk(cfg(1, &[Uds], 2), Bounds { connects: 3, conn_panics: 1, ..Default::default() }));
+                // the client resets its connection while it waits in a worker's queue: accepted is accepted
+                v.push(mk(cfg(1, &[Tcp], 2), Bounds { connects: 2, client_resets: 1, ..Default::default() }));
                 // one bind() call with two addresses, then another listener: every connection reaches
                 // the service of the listener it was made to
                 v.push(mk(cfg(1, &[Tcp, TcpBindSecond, Tcp], 3), Bounds { connects: 3, connect_listeners: vec![0, 1, 2], ..Default::default() }));
@@ -1415,6 +1417,8 @@ fn parse_ev(s: &str) -> Ev {
         Ev::Complete(num(r))
     } else if let Some(r) = s.strip_prefix("Fail(") {
         Ev::Fail(num(r))
+    } else if let Some(r) = s.strip_prefix("ClientReset(") {
+        Ev::ClientReset(num(r))
     } else if s == "Pause" {
         Ev::Pause
     } else if s == "Resume" {
